@@ -162,6 +162,17 @@ def judgeInject (kvs : List (String × Json)) (impl : String) : String :=
       | _ => verdict model impl
   | _ => verdict model impl
 
+/-- `tinject` / `tbatch`: the same request against the pipeline `emit(a: f0 + 1, b: -f1, c: f2, d: f3)` -/
+def judgeTransform (kvs : List (String × Json)) (impl : String) : String :=
+  let ev := injectEvent { eventType := "E", fields := kvs }
+  match transformFields ev.data with
+  | none => "SKIP"
+  | some out =>
+    let model := s!"200 {showJson (.obj (valueToJsonFields out))}"
+    if model == impl then "ok"
+    else if Json.hasBigIntFields kvs then s!"KNOWN[{knownId}] integer outside i64 came back (through the evaluator) as {impl}"
+    else s!"DIFF model={model}"
+
 structure St where
   dummy : Unit := ()
 
@@ -174,6 +185,8 @@ def step (st : St) (line : String) : St × String :=
   | ["back", v] => (st, match parseValue v with | some v => judgeBack v impl | none => "BADLINE")
   | ["wsback", v] => (st, match parseValue v with | some v => judgeBack v impl | none => "BADLINE")
   | ["inject", j] => (st, match parseJson j with | some (.obj kvs) => judgeInject kvs impl | _ => "BADLINE")
+  | ["tinject", j] => (st, match parseJson j with | some (.obj kvs) => judgeTransform kvs impl | _ => "BADLINE")
+  | ["tbatch", j] => (st, match parseJson j with | some (.obj kvs) => judgeTransform kvs impl | _ => "BADLINE")
   | ["batch", j] => (st, match parseJson j with | some (.obj kvs) => judgeInject kvs impl | _ => "BADLINE")
   | [] => (st, "")
   | _ => (st, "BADLINE")
